@@ -7,7 +7,7 @@ EXPLANATION = (
     "(JxJsonSpec.v, JxXmlSpec.v): json_parse (json_print d) = d and xml_parse (xml_print x) = x for every well-formed DOM, white space between JSON tokens is "
     "irrelevant, the parsers are total (never out of fuel); for JSON also the converse (JxJsonSound.v): the accepted texts are exactly the RFC 8259 renderings of the returned DOM "
     "(free white space, the four spellings of a string character, the number lexeme carried by the DOM), so the reference parser accepts nothing else; the same for the XML subset (JxXmlSound.v: accepted texts = the generative description, both directions; strict about Misc and the XML declaration; "
-    "DOCTYPE is outside the subset); the options of both archives reach the third-party writers as configured (T_C08_options_passed, T_C08_xml_options_passed, J47 as the stated exception); a JSON stream written under any options is read back by detection + decoding whenever a BOM is written or the text starts with characters below U+0100 - every array / object document - and the exact class where BOM-less detection fails is J46 (T_C08_stream_*); loading does not depend on the order of members at any depth for every target type incl. std::map (JxMemberOrder.v); validation error paths "
+    "DOCTYPE is outside the subset); the options of both archives reach the third-party writers as configured (T_C08_options_passed, T_C08_xml_options_passed, J47 as the stated exception); a JSON stream written under any options is read back by detection + decoding whenever a BOM is written or the text starts with characters below U+0100 - every array / object document - and the exact class where BOM-less detection fails is J46 (T_C08_stream_*); every XML stream the archive writes (it begins with the XML declaration) is recognised by pugixml's detection and read back, for all five encodings with and without BOM (T_C08_xml_stream_*); loading does not depend on the order of members at any depth for every target type incl. std::map (JxMemberOrder.v); validation error paths "
     "(JxPathModel.v, JxPathProofs.v): what GetPath of the JSON scopes yields for every nesting as an explicit function of the location, equal to the RFC 6901 pointer outside "
     "the defect class (no sequence on the way, plain names) and refuted inside it (J48, J49); (2) theorems about a hand-written model of the adapter logic of rapidjson_archive.h / pugixml_archive.h "
     "(JxModel.v): which DOM is built, how a DOM is read back, what Finalize does with a writer failure. VALIDATED PER DOCUMENT, not proved: RapidJSON 1.1.0 and pugixml "
@@ -33,7 +33,7 @@ ASSUMPTIONS = [
     "the catalogue of typed targets is a finite sample of the type universe (61 C++ types); the library has no dynamic tree type of its own",
     "the model of the adapter is tied to /repo by correspondence on the generated cases only",
     "validation error paths: pugixml's xml_node::path() is taken to be the names of the ancestor-or-self elements joined by the separator; mismatch / overflow policies of the path runs are mostly Skip (a throwing load has no map to compare)",
-    "RapidJSON's detection of the encoding of a stream is the Coq function rj_detect (JxDetect.v, written from encodedstream.h; the theorems T_C08_stream_* are about it), extracted into the model driver and compared with the implementation on every stream load incl. short and adversarial prefixes; pugixml's auto-detection is still mirrored in the model driver's glue only (third-party behaviour, validated per document)",
+    "RapidJSON's detection of the encoding of a stream is the Coq function rj_detect (JxDetect.v, written from encodedstream.h; the theorems T_C08_stream_* are about it), extracted into the model driver and compared with the implementation on every stream load incl. short and adversarial prefixes; pugixml's auto-detection (guess_buffer_encoding; source not installed, written from the documented behaviour) is the Coq function px_detect (JxXmlDetect.v, theorems T_C08_xml_stream_*), extracted and compared likewise; its latin1 branch and pugixml's leniency towards ill-formed code unit sequences are outside the model (counted, not compared)",
 ]
 
 
